@@ -160,6 +160,10 @@ def rlOf (variant : String) (loc : OffsetMap LTerm) : Option (Nat → Option LTe
 def normS (variant : String) : LTerm → LTerm :=
   if (variant.splitOn "+").contains "packed" then normalizeMSplit else normalizeM
 
+/-- generic layout: `+gsplit` = /repo carries the repair that splits a fully concrete preimage `key ‖ base` and decodes the base -/
+def normG (variant : String) : LTerm → LTerm :=
+  if (variant.splitOn "+").contains "gsplit" then normalizeGSplit else normalizeM
+
 def showKV (env : Env) (t : LTerm) : String := s!"{t.width}:{toHex (t.eval env)}"
 
 def doDecode (layout variant reg term envs : String) : String :=
@@ -174,7 +178,7 @@ def doDecode (layout variant reg term envs : String) : String :=
         | .error e => s!"err {errName e}"
         | .ok ((slot, _, _), keys) => " ".intercalate ("ok" :: toHex slot :: keys.map (showKV env))
       else if layout = "G" then
-        match decodeG rl normalizeM FUEL t with
+        match decodeG rl (normG variant) FUEL t with
         | .error e => s!"err {errName e}"
         | .ok d => s!"ok {showKV env d}"
       else "bad-op"
@@ -196,22 +200,22 @@ def parseOp (s : String) : Option Op :=
     | _ => none
   | _ => none
 
-def runHist (generic : Bool) (nS : LTerm → LTerm) (rl : Nat → Option LTerm) (conc : LTerm → Option Nat) (env : Env) :
+def runHist (generic : Bool) (nS nG : LTerm → LTerm) (rl : Nat → Option LTerm) (conc : LTerm → Option Nat) (env : Env) :
     SData Nat → List Op → Nat → List String → String
   | _, [], _, acc => if acc.isEmpty then "-" else ",".intercalate acc.reverse
   | s, op :: ops, i, acc =>
     let chk : LTerm → LTerm → Tri := fun _ _ => .unknown
     match op with
     | .store t v =>
-      let r := if generic then storeG (decodeG rl normalizeM FUEL) s t v else storeS conc (decodeS rl nS FUEL) s t v
+      let r := if generic then storeG (decodeG rl nG FUEL) s t v else storeS conc (decodeS rl nS FUEL) s t v
       match r with
       | .error e => s!"err {errName e} {i}"
-      | .ok s' => runHist generic nS rl conc env s' ops (i + 1) acc
+      | .ok s' => runHist generic nS nG rl conc env s' ops (i + 1) acc
     | .load t =>
-      let r := if generic then loadG (decodeG rl normalizeM FUEL) chk s t else loadS conc (decodeS rl nS FUEL) chk s t
+      let r := if generic then loadG (decodeG rl nG FUEL) chk s t else loadS conc (decodeS rl nS FUEL) chk s t
       match r with
       | .error e => s!"err {errName e} {i}"
-      | .ok (s', res) => runHist generic nS rl conc env s' ops (i + 1) (toHex (res.eval env (fun _ _ => 0) id) :: acc)
+      | .ok (s', res) => runHist generic nS nG rl conc env s' ops (i + 1) (toHex (res.eval env (fun _ _ => 0) id) :: acc)
 
 def doHist (layout variant symb reg envs ops : String) : String :=
   match parseReg reg, parseEnv envs, ((ops.splitOn ";").filter (fun o => o.trimAscii.toString ≠ "")).mapM parseOp with
@@ -220,7 +224,7 @@ def doHist (layout variant symb reg envs ops : String) : String :=
     | none => "bad-op"
     | some rl =>
       if layout ≠ "S" ∧ layout ≠ "G" then "bad-op" else
-      runHist (layout = "G") (normS variant) rl (concOf regl) (mkEnv vals) { symbolic := symb = "1", cells := [] } ops 0 []
+      runHist (layout = "G") (normS variant) (normG variant) rl (concOf regl) (mkEnv vals) { symbolic := symb = "1", cells := [] } ops 0 []
   | _, _, _ => "bad-op"
 
 def handle (line : String) : String :=
